@@ -7,6 +7,7 @@ From Coq Require Import ExtrOcamlBasic.
 From ASModel Require Import Base SetMatch SrcLoc Report PathRes Tokens Ast IR Expand Nodes Print Binders Values Sem Spec Shared Features Parser FrontEnd Display.
 From ASProofs Require Import SemP.
 Extraction Language OCaml.
+From ASModel Require Import SharedT.
 Set Extraction KeepSingleton.
 Extraction "model.ml"
   SetMatch.set_match_tr SetMatch.set_match SetMatch.brute_force
@@ -16,7 +17,7 @@ Extraction "model.ml"
   PathRes.absolute_source_path PathRes.absolute_source_path_old PathRes.components
   Print.expand_top Nodes.gen_nodes Nodes.location Expand.expand Nodes.node_kind_of Binders.stmt_binders Binders.reserved
   Features.top_refs Features.has_regex Features.compiles_in Features.dispatch_eq Features.macro_regex Features.runtime_regex
-  Shared.step Shared.run Shared.cache_get Shared.guard_step Shared.plain_flag Shared.styled
+  Shared.step Shared.run Shared.cache_get Shared.guard_step Shared.plain_flag Shared.styled SharedT.reports_from
   FrontEnd.front_end_from Parser.counter_after Parser.fuel_for Parser.parse_top Base.N_to_string
   Display.display Display.annotation_of
   Sem.exec Sem.exec_top Spec.frontier Values.debug SemP.pat_ok Report.node_display.
